@@ -669,6 +669,18 @@ namespace via
     /// Close the http server and all of the connections associated with it.
     void close()
     {
+      // signal that the open connections are being disconnected
+      if (disconnected_handler_)
+      {
+#ifdef HTTP_THREAD_SAFE
+        auto connection_data(http_connections_.data());
+#else
+        auto connection_data(http_connections_);
+#endif
+        for (auto& elem : connection_data)
+          disconnected_handler_(elem.second);
+      }
+
       http_connections_.clear();
       server_->close();
     }
